@@ -10,7 +10,7 @@ the `Determinism` model (harness/c18_sites.json) and the code.  It finds
       matched by attribute NAME only), or assigned a set-typed expression,
     * subscripts / `.get()` / `.values()` elements of names annotated `Dict[.., Set[..]]`,
     * properties and functions whose return annotation is a set type or whose every `return`
-      returns a set display / comprehension / `set()` call (e.g. `System.root_names`, which is
+      returns a set display / comprehension / `set()` call or a local name bound to one (e.g. `System.root_names`, which is
       annotated `Collection[str]`); matched by NAME at attribute accesses and calls,
     * `|  &  -  ^` and `.union/.intersection/.difference/.symmetric_difference/.copy` of those,
   unordered listings
@@ -112,8 +112,17 @@ class Index:
 def _returns_set(fn: ast.AST) -> bool:
     if _ann_is_set(getattr(fn, "returns", None)):
         return True
-    rets = [n for n in _walk_own(fn) if isinstance(n, ast.Return)]
-    return bool(rets) and all(r.value is not None and _is_set_literal(r.value) for r in rets)
+    own = list(_walk_own(fn))
+    local_sets = set()
+    for n in own:
+        if isinstance(n, ast.Assign) and _is_set_literal(n.value):
+            local_sets.update(t.id for t in n.targets if isinstance(t, ast.Name))
+        elif isinstance(n, ast.AnnAssign) and isinstance(n.target, ast.Name) and (
+                _ann_is_set(n.annotation) or (n.value is not None and _is_set_literal(n.value))):
+            local_sets.add(n.target.id)
+    rets = [n for n in own if isinstance(n, ast.Return)]
+    return bool(rets) and all(r.value is not None and (
+        _is_set_literal(r.value) or (isinstance(r.value, ast.Name) and r.value.id in local_sets)) for r in rets)
 
 
 def _walk_own(fn: ast.AST) -> Iterator[ast.AST]:
